@@ -462,6 +462,12 @@ def _export_paths_only(
     """
     if exporter_kwargs is None:
         exporter_kwargs = {}
+    if isinstance(file_path, str):
+        # Same conversion as _validate_and_get_export_func makes before the
+        # overwrite check: Path('./~/x') is '~/x', which expands to $HOME/x,
+        # whereas the str './~/x' does not expand. Without it the check is made
+        # on one file and the exporter is handed another.
+        file_path = Path(file_path)
     export_function = _validate_and_get_export_func(
         file_path, extensions_map, extension, overwrite
     )
